@@ -93,7 +93,7 @@ def pick_locs(rng, locs, tree, kinds):
 def one(ctx, i, tmpdir):
     from doctrans.sync_properties import sync_properties
 
-    rng = ctx.rng
+    rng = ctx.case_rng(i)
     min_ = gen_module(rng)
     mout = gen_module(rng)
     in_src, out_src = min_["src"], mout["src"]
@@ -178,7 +178,7 @@ def one(ctx, i, tmpdir):
         "in_max_depth": max(f[0]["depth"] for f in feats), "out_max_depth": max(f[1]["depth"] for f in feats),
         "out_has_kwonly": any(f[1]["target_kind"] in ("kwarg", "method_kwarg") for f in feats),
     }
-    replay = {"in_src": in_src, "out_src": out_src, "pairs": pairs, "wrap": wrap, "eval": evalmode}
+    replay = {"case": i, "seed": ctx.seed, "tier": ctx.tier, "in_src": in_src, "out_src": out_src, "pairs": pairs, "wrap": wrap, "eval": evalmode}
     ctx.case((i, ctx.shard[0], tuple(map(tuple, (p[1] for p in pairs))), wrap, evalmode), nontrivial=not bad_address,
              sample={"pairs": [[".".join(a), ".".join(b)] for a, b in pairs], "wrap": wrap, "eval": evalmode,
                      "input": in_src[:400], "output": out_src[:400]}, sample_key=(len(pairs), evalmode, bad_address))
@@ -267,6 +267,11 @@ def run(ctx):
 def replay(payload):
     from ..runner import Ctx
 
-    ctx = Ctx(PROPERTY, "quick", 0)
-    ctx.case(("replay",))
+    rp = payload["replay"]
+    ctx = Ctx(PROPERTY, rp.get("tier", "quick"), rp.get("seed", 0))
+    tmpdir = tempfile.mkdtemp(prefix="dtverif-c14-")
+    try:
+        one(ctx, rp["case"], tmpdir)
+    finally:
+        shutil.rmtree(tmpdir, ignore_errors=True)
     return ctx
